@@ -668,6 +668,7 @@ func replayC10(c *core.Ctx, v *core.Violation) (bool, string) {
 var c10Alpha = []string{"a", " ", "\n", "*", "`", "[", "]", "(", ")", "<", ">", "!", "-", "#", "|", ":", "x", "/", "&", "\\"}
 
 var c10Tokens = []string{
+	"![a\\ b\nc](u)", "![a\\ b  \nc\\ d](u 't')", "![*x\\ y*\nz](u)", "a\\ b\nc", "\\ ", "![\\ \n\\ ](u)", "[l\\ m\nn](u)",
 	"a\nb", "a\nb\nc", "foo\n", "  \n", "\\\n", "\n", "\n\n", "*e\nf*", "[l\nm](u)", "![i\nj](u)", "![i  \nj](u \"t\")", "`c\nd`", "# h\n", "h\nk\n===\n", "> q\nr\n", "- i\nj\n", "1. o\n   p\n",
 	"***\n", "---\n", "![a](u)", "![](u)", "![a](<u v> 't')", "[![a](u)](v)", "<br>", "<br/>", "<hr>", "<img src=x>", "<b>", "</b>", "<!-- c -->", "<a href=\"x\">", "<?p?>", "<!X>", "<![CDATA[x]]>",
 	"<div>\n", "</div>\n", "<div>\nx\n</div>\n\n", "<script>\n", "</script>\n", "<pre>\n\n</pre>\n", "<!--\n", "-->\n", "<!-- raw HTML omitted -->", "<!-- raw HTML omitted -->\n", "<x-y>\n", "<hr />\n", "<hr>\n",
